@@ -113,6 +113,12 @@ def gen_history(seed: int, *, n_events, families=None, always=(), start=None, fa
                         ev[key] = opsmod.g_src(r_faults, 1.0)
             if held_rate is not None and "held" in ev:
                 ev["held"] = r_sched.random() < held_rate
+            if any(isinstance(ev.get(k_), dict) and ev[k_].get("fault") for k_ in ("src", "psrc", "isrc")) and r_sched.random() < 0.7:
+                # a fault inside an operation that creates in-flight state: save right after it, before anything can heal it
+                ev["dt"] = dt()
+                events.append(ev)
+                ev = {"op": "checkpoint", "sink": "seekable"}
+                last_ckpt, last_creates = True, False
         if deck and "deck" not in ev:
             ev["deck"] = deck
         ev["dt"] = dt()
